@@ -268,7 +268,8 @@ func inRange(ip net.IP, CIDRs []string) bool {
 		cidr := CIDRs[i]
 		_, network, err := net.ParseCIDR(cidr)
 		if err != nil {
-			return false
+			// skip the unparsable entry, the ones after it still count
+			continue
 		}
 		if network.Contains(ip) {
 			return true
